@@ -126,6 +126,25 @@ def handler : Handler := fun op j =>
       (w, jObj [("insts", jNs w.insts), ("dicts", jArr (w.dicts.map jDict))] :: acc.2)
     let r := ops.foldl step (OptWorld.init lit, [])
     some (ok (jArr r.2.reverse))
+  | "jit" => do
+    let v ← match (← fStr? j "variant") with
+      | "adjFn" => some LinOpVariant.adjFn | "classAdj" => some LinOpVariant.classAdj | "plain" => some LinOpVariant.plain | _ => none
+    let jitOpt ← fBool? j "jit"
+    let ops ← (field? j "ops").bind (getListOf? (fun o => do
+      match (← getStr? o) with
+      | "jit" => some LinOpOp.jit | "call" => some LinOpOp.call | "adj" => some LinOpOp.adj
+      | "gram" => some LinOpOp.gram | "gramOp" => some LinOpOp.gramOp | _ => none))
+    let jSrc : AdjSrc → Json
+      | .given => jS "given" | .classMethod => jS "classMethod" | .derived => jS "derived"
+    let jSt (s : LinOpState) : Json := jObj [("eval", jN s.evalDepth),
+      ("adj", match s.adj with | none => Json.null | some a => jArr [jSrc a.1, jN a.2]),
+      ("gram", match s.gram with | none => Json.null | some g => jN g)]
+    let step (acc : LinOpState × List Json) (o : LinOpOp) : LinOpState × List Json :=
+      let s := acc.1.step o
+      (s, jSt s :: acc.2)
+    let s0 := LinOpState.init v jitOpt
+    let r := ops.foldl step (s0, [jSt s0])
+    some (ok (jArr r.2.reverse))
   | _ => none
 
 def main : IO Unit := mainLoop handler
